@@ -23,12 +23,12 @@ from ..runner import CaseResult, digest
 from .c08 import abs_key
 
 ID = "C07"
-CALLS = [("sweep", ("a",)), ("link", ("a", "b")), ("mark", ("w",)), ("sweep", ("b",))]
+CALLS = [("sweep", ("a",)), ("link", ("a", "b")), ("mark", ("w",)), ("bump", ())]
 FLAGS = [{}, {"skip_validation": True}, {"allow_inapplicable_actions": True}]
 RULE = ("histories: cond mini-domain (forall precondition, forall-when / when / numeric effects, constant); events: "
         "apply(call, state j, flags) [4 calls x <= 3 live states x 3 flag sets], is_applicable(call, j), re-apply(earlier "
         "operator i, j), print preconditions, export domain, serialize(j), parse_plan([call]), parse another typed / untyped "
-        "domain, combine agent domains; BFS to depth 3 (quick) / 4 (thorough), one case per first event, worlds "
+        "domain, combine agent domains, query a same-named variant domain with the same call; BFS to depth 3 (quick) / 4 (thorough), one case per first event, worlds "
         "de-duplicated on (live states, live operators' calls); schedules: thread A apply(call1,s0) || thread B in "
         "{apply(call2,s0), is_applicable(call3,s0), export}, all single pre-emptions at every library line "
         "(both start orders), thorough: all pairs of pre-emptions on a 1-in-8 line grid. states = distinct worlds; "
@@ -55,7 +55,7 @@ def events(n_states, n_ops):
             ev.append(["reapply", oi, j])
             ev.append(["requery", oi, j])
     ev += [["print"], ["export"], ["parse_plan", 0], ["parse_plan", 1], ["parse_other", "typed"], ["parse_other", "untyped"],
-           ["combine"]]
+           ["combine"], ["variant", 0], ["variant", 1]]
     return ev
 
 
@@ -164,6 +164,23 @@ def do_event(w: WorldC07, e):
     if kind == "parse_other":
         res = guard(parse_domain, OTHER_T if e[1] == "typed" else OTHER_U)
         return ("parse_other", e[1]), show(guard(lambda: sorted(res.types.keys())))
+    if kind == "variant":
+        # an independent domain with the SAME name and action names but other preconditions, queried with the same call
+        dt, pt = md.ALL["cond"]
+        vt = dt.replace("(and (p ?x) (forall (?z - t2) (or (m ?z) (not (p ?z)))))", "(and (not (p ?x)))") \
+               .replace("(and (not (= ?x ?y)) (or (p ?x) (r)))", "(and (= ?x ?y))")
+        assert vt != dt
+
+        def q():
+            V = parse_domain(vt)
+            VP = parse_problem(pt, V)
+            from pddl_plus_parser.multi_agent.common import create_initial_state
+            name, args = CALLS[e[1]]
+            op = operator(V, name, list(args), VP.objects)
+            ok = op.is_applicable(create_initial_state(VP))
+            nxt = observe_state(op.apply(create_initial_state(VP), skip_validation=True)).to_json()
+            return [ok, nxt]
+        return ("variant", e[1]), show(guard(q))
     if kind == "combine":
         from pathlib import Path
         from pddl_plus_parser.multi_agent import MultiAgentDomainsConverter
